@@ -21,11 +21,19 @@ func nativeArg(fr *frame, v value) interface{} {
 			return nil
 		}
 		// error?
+		// messages with symbolic bytes are formatted with the bytes of the current model
+		// (formatting is not the subject of any check)
+		str := func(v value) string {
+			if ss, ok := v.(symStr); ok {
+				return concStr(fr.i.s, ss)
+			}
+			return v.(string)
+		}
 		if m := findMethod(fr.i, x.t, "Error"); m != nil {
-			return fmt.Errorf("%s", call(fr.i, fr, 0, m, []value{x.v}).(string))
+			return fmt.Errorf("%s", str(call(fr.i, fr, 0, m, []value{x.v})))
 		}
 		if m := findMethod(fr.i, x.t, "String"); m != nil {
-			return call(fr.i, fr, 0, m, []value{x.v}).(string)
+			return str(call(fr.i, fr, 0, m, []value{x.v}))
 		}
 		return nativeArg(fr, x.v)
 	case []value:
@@ -41,6 +49,8 @@ func nativeArg(fr *frame, v value) interface{} {
 			}
 		}
 		return toString(v)
+	case symStr:
+		return concStr(fr.i.s, x)
 	case string, bool, int, int8, int16, int32, int64, uint, uint8, uint16, uint32, uint64, float64:
 		return x
 	}
